@@ -37,9 +37,20 @@ def main():
         st['n'] += 1
         if rest is None or rest == 'PATCH-FAILS':
             prev = meta.get('detected_by')
+            # no matrix row (yet): the case kept when the change was first run against the
+            # check of its own property (tools/process_wave.sh, generators alone) is the record
+            kept = os.path.join(V, 'replay', 'regress', prop, 'seeded-%s.json' % name)
             if prev:
                 hits = [(h['check'], h['signature']) for h in prev]
                 unsure = []
+            elif os.path.exists(kept):
+                try:
+                    sig = json.load(open(kept)).get('signature', '?')
+                except Exception:
+                    sig = '?'
+                hits, unsure = [(prop, sig)], []
+            elif meta.get('verdict'):
+                hits, unsure = [], []
             else:
                 st['norun'].append(name)
                 out.append((name, prop, 'not-run', ''))
